@@ -176,7 +176,9 @@ func (s *Sorts) sortOf(t types.Type) string {
 	case *types.Slice:
 		r = "Slice"
 	case *types.Array:
-		r = s.uniqueName("A_"+shortTypeName(t), k)
+		// arrays are opaque values; named array types share the sort of their underlying type so that
+		// conversions between them (ECChainKey <- merkle.Digest) are the identity
+		r = s.uniqueName("A_"+shortTypeName(u), typeKey(u))
 		s.declareSort(r)
 	case *types.Struct:
 		name := s.uniqueName("S_"+shortTypeName(t), k)
